@@ -46,6 +46,43 @@ func genCase(mode string) func(t *rapid.T) Case {
 				c.Pool = append(c.Pool, off)
 			}
 		}
+		if mode == "free" && rapid.IntRange(0, 3).Draw(t, "runFragment") == 0 {
+			// a run of adjacent finished indices waiting to be stepped over while one of them is
+			// begun again: w0 begins p0 < p1 (< p2), finishes them from the top so that the last
+			// Done finds the whole run finished; w1 (and w2) begin pool indices again.  The choice
+			// sequence is "w0 for k1 steps, the others for k2 steps, then anybody".
+			n := rapid.IntRange(2, 3).Draw(t, "runLen")
+			c.Pool = nil
+			for i := 1; i <= n; i++ {
+				c.Pool = append(c.Pool, uint64(i))
+			}
+			var w0 []Op
+			for i := 0; i < n; i++ {
+				w0 = append(w0, Op{K: "begin", A: i})
+			}
+			for i := n - 1; i >= 0; i-- {
+				w0 = append(w0, Op{K: "done", A: i}) // open handles are listed in begin order
+			}
+			c.Scripts = [][]Op{w0}
+			others := rapid.IntRange(1, 2).Draw(t, "runOthers")
+			for o := 0; o < others; o++ {
+				ops := []Op{{K: "begin", A: rapid.IntRange(0, n-1).Draw(t, "rebegin")}}
+				if rapid.Bool().Draw(t, "runRead") {
+					ops = append(ops, Op{K: "read"})
+				}
+				c.Scripts = append(c.Scripts, ops)
+			}
+			k1 := rapid.IntRange(4, 60).Draw(t, "k1")
+			k2 := rapid.IntRange(1, 30).Draw(t, "k2")
+			for i := 0; i < k1; i++ {
+				c.Sched = append(c.Sched, 0)
+			}
+			for i := 0; i < k2; i++ {
+				c.Sched = append(c.Sched, rapid.IntRange(1, 2).Draw(t, "other"))
+			}
+			c.Sched = append(c.Sched, rapid.SliceOfN(rapid.IntRange(0, 3), 0, 30).Draw(t, "tail")...)
+			return c
+		}
 		nw := rapid.IntRange(2, 4).Draw(t, "workers")
 		begins := 0
 		var kinds []string
